@@ -289,27 +289,38 @@ def insert_case(rng):
         ]
         if rng.random() < 0.5:
             tmpl.append({"row_id": "", "type": "hard_exit", "from": "t4"})
-    pick = rng.choice(ids)
-    arg = rng.choice(["E1", ""])
-    main = [
-        {"row_id": "m1", "type": "send_message", "from": "start", "message_text": "main"},
-        {"row_id": "m2", "type": "insert_as_block", "from": "m1", "message_text": "tmpl", "data_sheet": "data", "data_row_id": pick, "template_arguments": arg},
-        {"row_id": "m3", "type": "send_message", "from": "m2", "message_text": "after block"},
-    ]
-    ctx = {"word": words[ids.index(pick)], "extra": arg or "dflt"}
-    inst = S.desugar(tmpl, ctx)
-    body = []
-    for k, r in enumerate(inst):
-        r = dict(r)
-        if r.get("row_id"):
-            r["row_id"] = "tw_" + r["row_id"]
-        fr = r.get("from", "")
-        if fr == "start":
-            r["from"] = ""           # takes the block's incoming edges through the begin row
-        elif fr:
-            r["from"] = ";".join("tw_" + x for x in fr.split(";"))
-        body.append(r)
-    twin_main = [main[0], {"row_id": "m2", "type": "begin_block", "from": "m1"}] + body + [{"row_id": "", "type": "end_block"}, main[2]]
+    # the template is inserted one to three times, one insertion after the other, each followed by a row
+    # that continues from the inserted block — sometimes with exactly the same data row and arguments
+    # (every insertion is a block of its own: its hard exits stay hard exits, its loose exits continue)
+    main = [{"row_id": "m1", "type": "send_message", "from": "start", "message_text": "main"}]
+    twin_main = [main[0]]
+    prev = "m1"
+    picks = []
+    for k in range(rng.choice([1, 1, 2, 2, 3])):
+        if picks and rng.random() < 0.6:
+            pick, arg = rng.choice(picks)
+        else:
+            pick, arg = rng.choice(ids), rng.choice(["E1", ""])
+        picks.append((pick, arg))
+        bid, aft = f"b{k}", f"aft{k}"
+        ins_row = {"row_id": bid, "type": "insert_as_block", "from": prev, "message_text": "tmpl", "data_sheet": "data", "data_row_id": pick, "template_arguments": arg}
+        aft_row = {"row_id": aft, "type": "send_message", "from": bid, "message_text": f"after block {k}"}
+        main += [ins_row, aft_row]
+        ctx = {"word": words[ids.index(pick)], "extra": arg or "dflt"}
+        inst = S.desugar(tmpl, ctx)
+        body = []
+        for r in inst:
+            r = dict(r)
+            if r.get("row_id"):
+                r["row_id"] = f"tw{k}_" + r["row_id"]
+            fr = r.get("from", "")
+            if fr == "start":
+                r["from"] = ""           # takes the block's incoming edges through the begin row
+            elif fr:
+                r["from"] = ";".join(f"tw{k}_" + x for x in fr.split(";"))
+            body.append(r)
+        twin_main += [{"row_id": bid, "type": "begin_block", "from": prev}] + body + [{"row_id": "", "type": "end_block"}, aft_row]
+        prev = aft
     from ..flows import rows_to_csv as csvt
     ih = ["type", "sheet_name", "data_sheet", "data_row_id", "new_name", "template_arguments"]
     base = {
@@ -336,7 +347,7 @@ def run(ck: core.Check):
         "pair where at least one side compiles; distinct = distinct sugared CSV"
     )
     ck.assumptions = ["the desugarer substitutes loop variables with the repo's own template engine (cell level)"]
-    ck.partial_gap = ["the block clause (an edge naming a block leaves from every still-unconnected ordinary exit, never from a hard exit) is decided on the real compiler by the with/without-edge oracle; the NodeGroup machinery is in the Lean compiler model (Rpft/Compile.lean, tied in C01) but the clause is not proved about it",
+    ck.partial_gap = ["the block clause (an edge naming a block leaves from every still-unconnected ordinary exit, never from a hard exit) is decided on the real compiler by the with/without-edge oracle; the NodeGroup machinery is in the Lean compiler model (Rpft/Compile.lean, tied in C01); proved about it at node level (block_edge_exits: exactly the exits leading nowhere are re-targeted, hard exits and connected exits never; block_edge_consumes_loose), the group recursion (which nodes of a block are visited) is not proved",
                       "insert_as_block is compared on the real code (twin workbooks); it is outside the Lean compiler model"]
     drv = core.Driver()
     # known-finding stream (deterministic): F-C03-a
